@@ -471,6 +471,11 @@ class C08(Oracle):
             elif name == 'teleport':
                 if o1 != o0:
                     out.append(V('teleport/changes-heading', c['state']))
+                from gym_gridverse.grid_object import Telepod
+
+                # teleportation is what telepods do: an agent that does not stand on one keeps its pose
+                if type(s0.grid[p0]) is not Telepod and p1 != p0:
+                    out.append(V('teleport/displaces-agent-not-on-a-telepod', f'{c["state"]} a={a} -> {p1}'))
             else:
                 if p1 != p0 or o1 != o0:
                     out.append(V(f'{name}/changes-pose', f'{c["state"]} a={a}'))
@@ -549,6 +554,64 @@ def run_atoms_stepwise(case):
         yield TRANS_NAMES[i], before, fast_copy(s), None
 
 
+_FRONT = {'F': (-1, 0), 'B': (1, 0), 'L': (0, -1), 'R': (0, 1)}
+
+
+def lit_front(s):
+    """the cell in front of the agent, from its position and heading alone (never from anything the
+    library may have remembered about an earlier pose)"""
+    dy, dx = _FRONT[s.agent.orientation.name[0]]
+    return Position(s.agent.position.y + dy, s.agent.position.x + dx)
+
+
+def run_history_stepwise(case):
+    """the chain applied in place to ONE state object for the case's action and then for every action of
+    case['history']; yields (atom_name, value of the state before, value after, error, action) per atom.
+    The before/after values are rebuilt from their description, so they carry nothing but the value."""
+    from harness.recrng import ScriptRng
+    from gym_gridverse.envs import transition_functions as trf
+
+    s = fast_copy(state_from_str(case['state']))
+    hist = case.get('history') or []
+    rng = ScriptRng(list(case['answers']) * (1 + len(hist)))
+    via_copy = case.get('via_copy')
+    for ai in [case['action']] + list(hist):
+        a = ACTIONS[ai]
+        if via_copy:
+            s = fast_copy(s)  # what functional_step / transition_with_copy do between steps
+        for i in case['atoms']:
+            before = state_from_str(enc_state(s))
+            try:
+                trf.transition_function_registry[TRANS_NAMES[i]](s, a, rng=rng)
+            except Exception as e:  # noqa
+                yield TRANS_NAMES[i], before, None, e, a
+                return
+            yield TRANS_NAMES[i], before, state_from_str(enc_state(s)), None, a
+
+
+def gen_history_cases(rng):
+    """multi-step histories on worlds that mix what no shipped layout mixes (telepods next to doors,
+    boxes and keys), with chains in which the teleport comes last, and repeated pose-preserving actions"""
+    g = gen_step_cases(rng, valid=True, telepods=True)
+    while True:
+        c = next(g)
+        s = state_from_str(c['state'])
+        h, w = s.grid.shape.height, s.grid.shape.width
+        from harness.codec import dec_obj
+
+        for _ in range(rng.randint(0, 4)):
+            col = rng.randrange(5)
+            s.grid[rng.randrange(h), rng.randrange(w)] = dec_obj(rng.choice([f'D1{col}', f'D2{col}', f'K{col}', 'XK1', 'XF', f'D0{col}']))
+        if blocks(s.grid[s.agent.position]):
+            continue
+        c['state'] = enc_state(s)
+        c['atoms'] = rng.choice([[0, 1, 4, 5, 2, 6], [4, 5, 2, 6], [2, 6], [4, 6], [5, 6], [6, 4, 5, 2], [0, 1, 6, 2, 4], rng.sample(range(7), 5)])
+        c['action'] = rng.choice([6, 7, 6, 7, rng.randrange(8)])
+        c['history'] = [rng.choice([6, 7, 6, 7, rng.randrange(8)]) for _ in range(rng.randint(1, 5))]
+        c['via_copy'] = rng.random() < 0.5
+        yield c
+
+
 def inventory(s, box_deep=False):
     from collections import Counter
     from gym_gridverse.grid_object import Box, Floor, NoneGridObject
@@ -573,7 +636,11 @@ class C09(Oracle):
     prop = 'C09'
 
     def gen(self, rng):
-        return gen_step_cases(rng)
+        g, gh = gen_step_cases(rng), gen_history_cases(rng)
+        while True:
+            yield next(g)
+            yield next(g)
+            yield next(gh)
 
     def from_line(self, line):
         return step_case_from_line(line)
@@ -582,15 +649,16 @@ class C09(Oracle):
         from gym_gridverse.grid_object import Beacon, Box, Door, Exit, Floor, NoneGridObject, Telepod, Wall
 
         out = []
-        a = ACTIONS[c['action']]
-        for name, b, s, err in run_atoms_stepwise(c):
+        for name, b, s, err, a in run_history_stepwise(c):
+            if out:
+                return out
             if not in_grid(b.grid, b.agent.position) and name == 'teleport':
                 return out
+            front = lit_front(b)
             if err is not None:
-                sig = 'pickndrop/front-outside-grid' if name == 'pickndrop' and not in_grid(b.grid, b.agent.front()) else f'{name}/raises'
+                sig = 'pickndrop/front-outside-grid' if name == 'pickndrop' and not in_grid(b.grid, front) else f'{name}/raises'
                 out.append(V(sig, f'{type(err).__name__} in {name} on {enc_state(b)} a={a}'))
                 return out
-            front = b.agent.front()
             fin = in_grid(b.grid, front)
             ib, ia = inventory(b), inventory(s)
             if name != 'actuate_box':
@@ -661,8 +729,13 @@ class C10(Oracle):
         from harness.codec import dec_obj
 
         base = gen_step_cases(rng)
+        hist = gen_history_cases(rng)
         while True:
-            if rng.random() < 0.5:
+            r = rng.random()
+            if r < 0.25:
+                yield next(hist)
+                continue
+            if r < 0.6:
                 yield next(base)
                 continue
             # door/box focused: every status x colour x held x relative pose
@@ -685,11 +758,10 @@ class C10(Oracle):
         from harness.codec import enc_obj
 
         out = []
-        a = ACTIONS[c['action']]
-        for name, b, s, err in run_atoms_stepwise(c):
-            if err is not None:
+        for name, b, s, err, a in run_history_stepwise(c):
+            if err is not None or out:
                 return out  # totality is C01's business
-            front = b.agent.front()
+            front = lit_front(b)
             for p in b.grid.area.positions():
                 o = b.grid[p]
                 if isinstance(o, Door):
@@ -976,7 +1048,7 @@ class C12(Oracle):
         if e or r != exp:
             out.append(V('reward-pickndrop/wrong', f'{c} r={r}'))
         # door reward
-        front = s.agent.front()
+        front = lit_front(s)
         r, e = call(rf.actuate_door, reward_open=3.0, reward_close=-3.5)
         exp = 0.0
         if a.name == 'ACTUATE' and in_grid(s.grid, front):
@@ -2491,13 +2563,13 @@ class C01(Oracle):
             except ValueError as e:
                 if inside:
                     sig = 'functional_step/raises'
-                    front = s.agent.front()
+                    front = lit_front(s)
                     if 'teleport' in tnames and 'positive integer' in str(e):
                         sig = 'teleport/unpaired-telepod-raises'
                     out.append(V(sig, f'ValueError: {e} state={c["state"]} a={a} trans={tnames}'))
                 continue
             except Exception as e:
-                front = s.agent.front()
+                front = lit_front(s)
                 sig = 'functional_step/raises'
                 if isinstance(e, IndexError) and not in_grid(s.grid, front):
                     sig = 'pickndrop/front-outside-grid' if a.name == 'PICK_N_DROP' else ('reward-actuate_door/front-outside-grid' if a.name == 'ACTUATE' else sig)
